@@ -631,7 +631,12 @@ class Arc(Entity):
             fit = self.center(vertices, return_normal=False, return_angle=False)
             return np.pi * fit.radius * 2
         # get the angular span of the circular arc
-        fit = self.center(vertices, return_normal=False, return_angle=True)
+        try:
+            fit = self.center(vertices, return_normal=False, return_angle=True)
+        except ValueError:
+            # the control points are numerically colinear: `discrete` is
+            # the three control points in that case so use their length
+            return Entity.length(self, vertices)
         return fit.span * fit.radius
 
     def discrete(self, vertices, scale=1.0):
